@@ -30,6 +30,7 @@ def dispatch (op : String) (args : List String) (impl : String) : Answer :=
   | "C13.minpush" => c13MinPush args impl
   | "C14.inspect" => c14Inspect args impl
   | "C11.fee" => c11Fee args impl
+  | "C11.noquote" => c11NoQuote args impl
   | "C11.signed" => c11Signed args impl
   | "C10.change" => c10Change args impl
   | "C12.fund" => c12Fund args impl
